@@ -31,6 +31,9 @@ func main() {
 		n, _ := strconv.Atoi(os.Args[2])
 		show, _ := strconv.Atoi(os.Args[3])
 		engines.DebugGen(envSeed(), n, show)
+	case "debugc04":
+		n, _ := strconv.Atoi(os.Args[2])
+		engines.DebugC04Prog(envSeed(), n)
 	case "debugprog":
 		n, _ := strconv.Atoi(os.Args[2])
 		engines.DebugProg(envSeed(), n)
